@@ -32,7 +32,7 @@ ASSUMPTIONS = [
     "endpoints only acknowledge wire IDs they have actually been shown; injection windows are the default size (no eviction within a history)",
     "a dropped PacketAck's body is not covered by the property (only piggy-backed acks of dropped packets are), so drops are applied to ordinary packets",
 ]
-EXHAUSTIVE_PARTS = {"quick": ["all sequences of 18 concrete events to depth 6"], "thorough": ["all sequences of 18 concrete events to depth 7"]}
+EXHAUSTIVE_PARTS = {"quick": ["all sequences of 19 concrete events to depth 6"], "thorough": ["all sequences of 19 concrete events to depth 7"]}
 FLOORS = {"quick": {"h_nontrivial": 3000, "ev_tick": 2000, "inj_completed": 500, "inj_timed_out": 8, "acks_for_injected_filtered": 500}}
 MANIFEST = {
     "text": "Bounded-exhaustive enumeration of event sequences plus long random walks on the real proxied circuit, each emission "
@@ -188,11 +188,21 @@ class Harness:
                 self.flags.add("inj_completed")
 
     # -- events: return list of violations --
-    def ev_send(self, side, reliable, ackmode, packetack=False, body_mode=None, drop=False, resend=False, retake=False):
+    def ev_send(self, side, reliable, ackmode, packetack=False, body_mode=None, drop=False, resend=False, retake=False, redrop=False):
         out = []
         dm = self.dirs[side]
         other = OTHER[side]
-        if resend:
+        if redrop:
+            # the endpoint retransmits a reliable packet the proxy dropped before (its ack got lost), possibly with fresh
+            # piggy-backed acks, and it is dropped again
+            cands = [o for o, r in self.sent[side].items() if r["reliable"] and r.get("dropped")]
+            if not cands:
+                return None
+            o = max(cands)
+            reliable = True
+            resend = True
+            self.flags.add("redrop")
+        elif resend:
             cands = [o for o, r in self.sent[side].items() if r["reliable"] and not r.get("dropped")]
             if not cands:
                 return None
@@ -212,7 +222,7 @@ class Harness:
         if ackmode != "none" and not acks:
             return None
         msg = self._mk(side, name, o, reliable, acks, body, resent=resend)
-        if not resend:
+        if not resend and not redrop:
             self.next_id[side] = o + 1
             self.sent[side][o] = {"reliable": reliable}
         self.c.emitted.clear()
@@ -270,10 +280,17 @@ class Harness:
                 dm.I.append(e["pid"])
                 dm.I.sort()
                 dm.max_wire = e["pid"]
-                self.shown[other].append({"wire": e["pid"], "kind": "injected", "reliable": False})
+                self.shown[other].append({"wire": e["pid"], "kind": "injected", "reliable": reliable})
+                if reliable:
+                    # the copy of a reliable packet is a reliable packet of the proxy's own: retransmitted until acknowledged
+                    info = self.c.unacked_reliable.get((DIR_FROM[side], e["pid"]))
+                    if info is None:
+                        out.append(("retake:not-tracked", "the re-sent copy of a reliable packet (wire id %d) is not tracked for retransmission" % e["pid"]))
+                    else:
+                        self.inj[(other, e["pid"])] = {"tx": 1, "last": _CLOCK.t, "tries_left": TRIES, "state": "pending", "future": info.completed}
             self.flags.add("retake")
             out.extend(self._check_emissions({V: Counter(), S: Counter()},
-                                             [{"dir": DIR_FROM[side], "pid": e["pid"], "name": name, "reliable": False, "resent": False}],
+                                             [{"dir": DIR_FROM[side], "pid": e["pid"], "name": name, "reliable": reliable, "resent": False}],
                                              allow_proxy_acks=False))
         return out
 
@@ -460,10 +477,19 @@ class Harness:
             r = self.ev_send(ev[1], False, ev[3], packetack=True, body_mode=ev[2])
         elif kind == "drop":
             r = self.ev_send(ev[1], ev[2], ev[3], drop=True)
+        elif kind == "zero_based":
+            # both endpoints number their packets from 0 (as hippolyzer's own client does) instead of 1
+            if self.sent[V] or self.sent[S] or self.inj:
+                return None
+            self.next_id = {V: 0, S: 0}
+            self.flags.add("zero_based_ids")
+            r = []
+        elif kind == "redrop":
+            r = self.ev_send(ev[1], True, ev[2], drop=True, redrop=True)
         elif kind == "ping":
             r = self.ev_ping(ev[1], ev[2])
         elif kind == "retake":
-            r = self.ev_send(ev[1], False, ev[2], drop=True, retake=True)
+            r = self.ev_send(ev[1], bool(ev[3]) if len(ev) > 3 else False, ev[2], drop=True, retake=True)
         elif kind == "resend":
             r = self.ev_send(ev[1], True, "none", resend=True)
         elif kind == "inject":
@@ -503,7 +529,7 @@ ALPHABET = [
     ("pack", V, "injonly", "realonly"), ("pack", S, "injonly", "realonly"),
     ("inject", V, True), ("inject", S, True), ("inject", S, False),
     ("drop", V, True, "all"), ("drop", S, True, "mix"),
-    ("tick", 3.1), ("resend", V), ("retake", S, "mix"),
+    ("tick", 3.1), ("resend", V), ("retake", S, "mix"), ("tick", 1.0),
 ]
 
 
@@ -569,13 +595,15 @@ EV = st.one_of(
               st.sampled_from(["none", "none", "realonly", "mix", "injonly"])),
     st.tuples(st.just("drop"), st.sampled_from([V, S]), st.booleans(), st.sampled_from(["none", "all", "mix"])),
     st.tuples(st.just("resend"), st.sampled_from([V, S])),
-    st.tuples(st.just("retake"), st.sampled_from([V, S]), st.sampled_from(["all", "mix", "oldest"])),
+    st.tuples(st.just("retake"), st.sampled_from([V, S]), st.sampled_from(["all", "mix", "oldest", "none"]), st.booleans()),
+    st.tuples(st.just("redrop"), st.sampled_from([V, S]), st.sampled_from(["none", "all", "mix"])),
     st.tuples(st.just("ping"), st.sampled_from([V, S]), st.sampled_from(["oldest", "newest", "next"])),
     st.tuples(st.just("inject"), st.sampled_from([V, S]), st.booleans()),
     st.tuples(st.just("inject"), st.sampled_from([V, S]), st.just(True)),
-    st.tuples(st.just("tick"), st.sampled_from([3.1, 3.1, 1.0, 6.5, 3.0])),
+    st.tuples(st.just("tick"), st.sampled_from([3.1, 3.1, 1.0, 6.5, 3.0, 1.0, 0.5, 1.5])),
 )
-WALK = st.tuples(st.booleans(), st.lists(EV, min_size=3, max_size=200))
+WALK = st.tuples(st.booleans(), st.lists(EV, min_size=3, max_size=200), st.integers(0, 2)).map(
+    lambda t: (t[0], ([("zero_based",)] if t[2] == 0 else []) + list(t[1])))
 
 
 def _walk_body(ctx, maxsteps):
